@@ -465,6 +465,7 @@ type FuncContract struct {
 	GhostSets []*GhostSet
 	Lemmas    []*Clause // "assert" hints, unused
 	CbInv     []*Clause // callback invariants (closures)
+	LoopStep  map[int][]*Clause
 	TrustNote string
 	recvName  string
 }
@@ -700,6 +701,18 @@ func (cs *Contracts) parseFile(pkgPath, fn, data string) error {
 					return fmt.Errorf("%s: %s: %v", fn, ln, err)
 				}
 				cur.LoopInv[n] = append(cur.LoopInv[n], &Clause{Kind: "invariant", Src: src2, E: e, Loop: n, Line: ln, Props: props, Free: free})
+			case "step":
+				// loop k step E: E holds whenever an iteration ends (checked on every back edge, in
+				// the scope of the iteration that just finished; never assumed)
+				src2, props := splitProps(src)
+				e, err := ParseSpecExpr(src2)
+				if err != nil {
+					return fmt.Errorf("%s: %s: %v", fn, ln, err)
+				}
+				if cur.LoopStep == nil {
+					cur.LoopStep = map[int][]*Clause{}
+				}
+				cur.LoopStep[n] = append(cur.LoopStep[n], &Clause{Kind: "step", Src: src2, E: e, Loop: n, Line: ln, Props: props})
 			case "modifies":
 				for _, part := range splitTop(src) {
 					e, err := ParseSpecExpr(part)
